@@ -180,7 +180,7 @@ Proof.
     destruct copy; [|discriminate]. destruct (get_struct w h) as [[old L]|]; auto.
     destruct (resolve_aref w a) as [x|] eqn:E2; auto.
     assert (srcs_valid w [copy_src true x]). { constructor; [|constructor]. simpl. eapply resolve_aref_valid; eauto. }
-    destruct (norm_index (length old) i); cbn [fst]; apply install_flag_nokeep; auto.
+    destruct (norm_index (length old) i); cbn [fst]; auto; apply install_flag_nokeep; auto.
   - (* SetSlice, copying: only members of the assigned slice are kept *)
     destruct copy; [|discriminate]. destruct (get_struct w h) as [[old L]|] eqn:E1; auto.
     destruct (get_obj w v) as [vo|] eqn:E2; auto. pose proof (get_obj_wf _ _ _ Hwf E2) as Hv.
@@ -194,7 +194,7 @@ Proof.
       simpl in Hy. destruct (memb y (pick old0 idxs)) eqn:Em; simpl in Hy; subst sx; simpl in Ha; [|tauto].
       destruct Ha; [|tauto]. subst. apply memb_In in Em. eapply pick_In; eauto. }
     destruct (Z.eqb stp 1); cbn [fst]; [apply install_flag; auto|].
-    match goal with |- context [if ?c then _ else _] => destruct c end; cbn [fst]; apply install_flag; auto.
+    match goal with |- context [if ?c then _ else _] => destruct c end; cbn [fst]; auto; apply install_flag; auto.
   - (* DelInt *)
     destruct (get_struct w h) as [[old L]|]; auto. destruct (norm_index (length old) i); cbn [fst]; auto.
     apply install_flag_nokeep; auto. constructor.
